@@ -192,6 +192,18 @@ func exec(line string) string {
 		return "bad-op"
 	}
 	op := f[1]
+	if op == "limit" {
+		// the exported limit variables themselves (the model has them as constants: U128.maxU128, I128.maxI128/minI128)
+		switch f[0] + " " + f[2] {
+		case "u max":
+			return fU(num.MaxUint128)
+		case "i max":
+			return fI(num.MaxInt128)
+		case "i min":
+			return fI(num.MinInt128)
+		}
+		return "bad-op"
+	}
 	h := fnv.New32a()
 	h.Write([]byte(line))
 	alt = h.Sum32()&1 == 1
